@@ -479,6 +479,18 @@ class World:
     elif op == 'SetInteractive':
       (gin.enter_interactive_mode if o['on'] else gin.exit_interactive_mode)()
       res['status'] = 'ok'
+    elif op == 'GetBindings':
+      key = '/'.join(list(o['scope']) + [dotted(o['spelling'])])
+      self.evals = []
+      try:
+        b = gin.get_bindings(key, resolve_references=o['resolve'], inherit_scopes=o['inherit'])
+        res['status'] = 'ok'
+        res['result'] = self.map_to_spec(b)
+      except BaseException as e:  # pylint: disable=broad-except
+        res['status'] = type(e).__name__
+        res['msg'] = str(e)
+        res['result'] = []
+      res['evals'] = self._evals_to_spec()
     elif op == 'Clear':
       try:
         gin.clear_config(clear_constants=o['clearConstants'])
@@ -669,6 +681,13 @@ def compare_out(want, got):
       return ('yielded', exp, got.get('yielded'))
   if want['op'] == 'Query' and want['status'] == 'ok' and want['val'] != got.get('val'):
     return ('val', want['val'], got.get('val'))
+  if want['op'] == 'GetBindings' and want['status'] == 'ok' and got['status'] == 'ok':
+    if norm_pairs(want['result']) != norm_pairs(got['result']):
+      return ('result', norm_pairs(want['result']), norm_pairs(got['result']))
+    we = [core.jdump([e['sel'], e['scope'], norm_pairs(e['delivered'])]) for e in want['evals']]
+    ge = [core.jdump([e['sel'], e['scope'], norm_pairs(e['delivered'])]) for e in got['evals']]
+    if we != ge:
+      return ('evals', we, ge)
   if want['op'] == 'Finalize' and got.get('sawParsed') is False:
     return ('hooks-see-config-as-parsed', True, False)
   if (want['op'] == 'Bind' and want['status'] == 'RuntimeError' and got['status'] in ('RuntimeError', 'ValueError', 'KeyError')
